@@ -936,7 +936,11 @@ func (f *flat) expr(e *E) int {
 	case "callv":
 		return f.add(map[string]any{"k": "callv", "f": f.expr(e.X), "args": f.exprs(e.Args), "spread": e.Spread, "line": e.Line})
 	case "mcall":
-		return f.add(map[string]any{"k": "mcall", "x": f.expr(e.X), "m": e.M, "args": f.exprs(e.Args), "spread": e.Spread, "line": e.Line})
+		sty := ""
+		if e.X.Ty != nil && e.X.Ty.K == "ptr" {
+			sty = e.X.Ty.Name
+		}
+		return f.add(map[string]any{"k": "mcall", "x": f.expr(e.X), "m": e.M, "sty": sty, "args": f.exprs(e.Args), "spread": e.Spread, "line": e.Line})
 	case "mval":
 		return f.add(map[string]any{"k": "mval", "x": f.expr(e.X), "m": e.M, "line": e.Line})
 	case "index":
